@@ -414,9 +414,76 @@ func runConc(scenario string, seed int64, n int, root, out string, seconds int) 
 		}
 	case "lin":
 		concLin(filepath.Join(root, "lin"), seed, n, out)
+	case "window":
+		if bad := concWindow(filepath.Join(root, "window"), seed, n); bad > 0 {
+			os.Exit(6)
+		}
 	default:
 		fmt.Fprintln(os.Stderr, "unknown scenario", scenario)
 		os.Exit(2)
 	}
 	os.RemoveAll(root)
+}
+
+// concWindow: a call made of two critical sections (list under the read lock, then act under the
+// write lock) lets a queued writer and a reader slip in between.  T1: DeleteAll.  T2: insert a new
+// object X, then Count.  With T2 keeping its program order the sequential outcomes are
+//
+//	DeleteAll, Insert, Count -> (count 1, final 1)      Insert, DeleteAll, Count -> (0, 0)
+//	Insert, Count, DeleteAll -> (n+1, 0)
+//
+// The collection is large so that T2's insert queues on the lock while T1 is still listing.
+func concWindow(root string, seed int64, rounds int) (bad int) {
+	const n = 800
+	for round := 0; round < rounds && bad == 0; round++ {
+		dir := fmt.Sprintf("%s-%d", root, round)
+		os.RemoveAll(dir)
+		db := sod.Open(dir)
+		sch := sod.DefaultSchema
+		sch.Cache = true
+		if round%4 != 3 {
+			// nothing reaches the disk: the rounds are fast
+			sch.Asynchrone(1<<30, time.Hour)
+		}
+		if err := db.Create(&T{}, sch); err != nil {
+			panic(err)
+		}
+		objs := make([]sod.Object, 0, n)
+		for i := 0; i < n; i++ {
+			objs = append(objs, &T{A: int64(i) + 100})
+		}
+		if _, err := db.InsertOrUpdateMany(objs...); err != nil {
+			panic(err)
+		}
+		var wg sync.WaitGroup
+		start := make(chan struct{})
+		count := -1
+		wg.Add(2)
+		go func() {
+			defer wg.Done()
+			<-start
+			if err := db.DeleteAll(&T{}); err != nil {
+				fmt.Printf("WINDOW DeleteAll: %v\n", err)
+			}
+		}()
+		go func() {
+			defer wg.Done()
+			<-start
+			if err := db.InsertOrUpdate(&T{A: -1}); err != nil {
+				fmt.Printf("WINDOW InsertOrUpdate: %v\n", err)
+			}
+			count, _ = db.Count(&T{})
+		}()
+		close(start)
+		wg.Wait()
+		final, _ := db.Count(&T{})
+		if !((count == 1 && final == 1) || (count == 0 && final == 0) || (count == n+1 && final == 0)) {
+			bad++
+			fmt.Printf("NOT-LINEARIZABLE round %d: %d stored objects; T1 DeleteAll || T2 InsertOrUpdate(new X); Count -> T2 counted %d, final count %d: no sequential order of the three calls gives this\n", round, n, count, final)
+		}
+		db.Close()
+		os.RemoveAll(dir)
+	}
+	fmt.Printf("window rounds=%d bad=%d\n", rounds, bad)
+	return
 }
